@@ -5,6 +5,7 @@ import (
 	"fmt"
 	"net/http"
 	"net/http/httptest"
+	"net/url"
 	"sort"
 	"strings"
 	"time"
@@ -53,7 +54,7 @@ func c06(r *hx.Run) {
 	fx.Quiet()
 	client, v := stdClient()
 	delta := v.P.MaxOperationTimeDelta
-	r.Rule = "for every history of <=3 (thorough: <=4 over a sub-alphabet) anchored operations (legitimate alphabet, published and unpublished, non-monotone coordinates) x every cut time T in {pre-epoch, 0..maxTime+1} x every version id present or unknown x every single later-anchored extension (placed in the store, and passed by the caller through WithAdditionalOperations before and after the version option; every cut also with unset (nil) options around the version option; every version-id cut also with each published operation of the history moved from the store into WithAdditionalOperations): Resolve(history, WithVersionTime/WithVersionID) on the real processor must equal Resolve over the truncated history on the real processor (metamorphic) and the reference model; unknown version id / empty truncation must be an error. The same cuts go through the REST resolve handler (versionId / versionTime / both) for two histories, addressed by the short-form and by the long-form DID: status and document must agree with the processor view (an unknown version of an anchored DID is an error in both forms). Non-trivial: the cut removes at least one and keeps at least one operation."
+	r.Rule = "for every history of <=3 (thorough: <=4 over a sub-alphabet) anchored operations (legitimate alphabet, published and unpublished, non-monotone coordinates) x every cut time T in {pre-epoch, 0..maxTime+1} (each also spelled with UTC offsets +05:00 / -03:30 / +00:00 and with fractional seconds: same cut) x every version id present or unknown x every single later-anchored extension (placed in the store, and passed by the caller through WithAdditionalOperations before and after the version option; every cut also with unset (nil) options around the version option; every version-id cut also with each published operation of the history moved from the store into WithAdditionalOperations): Resolve(history, WithVersionTime/WithVersionID) on the real processor must equal Resolve over the truncated history on the real processor (metamorphic) and the reference model; unknown version id / empty truncation must be an error. The same cuts go through the REST resolve handler (versionId / versionTime / both) for two histories, addressed by the short-form and by the long-form DID: status and document must agree with the processor view (an unknown version of an anchored DID is an error in both forms). Non-trivial: the cut removes at least one and keeps at least one operation."
 	pool := fx.NewPool(fx.Ed25519, fx.SHA256, "ok")
 	alpha := []string{"C", "C~h", "U01", "U01b", "U12", "U01~w", "U01~p", "R01", "R12", "V01", "D0", "D1", "Fc(U01)", "U10"}
 	grid := []Coord{{1, 0}, {1, 2}, {2, 0}, {2, 1}, {3, 0}}
@@ -97,6 +98,16 @@ func c06(r *hx.Run) {
 						fmt.Sprintf("history %v at T=%d: Resolve(nil, WithVersionTime, nil) differs from Resolve(WithVersionTime)\n  with nils: %s\n  without  : %s", placedDesc(placed), T, gotNil.R, got.R), nil)
 				}
 				r.Eval()
+				// other spellings of the same instant (UTC offsets, fractional seconds) cut at the same place
+				if T >= 0 {
+					for _, sp := range c06Spellings(T) {
+						if gotSp := projectHist(ResolveImpl(client, pool.Suffix, placed, document.WithVersionTime(sp))); gotSp != got {
+							r.Violation("version-time-spelling:"+diffFields(gotSp.R, got.R), caseID+"|"+sp,
+								fmt.Sprintf("history %v: versionTime %s and %s name the same second but resolve differently\n  %s: %s\n  %s: %s", placedDesc(placed), ts, sp, ts, got.R, sp, gotSp.R), nil)
+						}
+						r.Eval()
+					}
+				}
 				if len(placed) > 1 {
 					rev := make([]fx.Placed, len(placed))
 					for ri := range placed {
@@ -294,6 +305,17 @@ func sidetreeOrder(placed []fx.Placed) []fx.Placed {
 	return out
 }
 
+// c06Spellings returns other RFC 3339 spellings of the second T: two non-zero UTC offsets, +00:00 and fractional seconds.
+func c06Spellings(T int64) []string {
+	t := time.Unix(T, 0)
+	return []string{
+		t.In(time.FixedZone("", 5*3600)).Format(time.RFC3339),
+		t.In(time.FixedZone("", -(3*3600 + 1800))).Format(time.RFC3339),
+		t.UTC().Format("2006-01-02T15:04:05") + "+00:00",
+		t.UTC().Format("2006-01-02T15:04:05") + ".500Z",
+	}
+}
+
 // c06REST drives the same cuts through the REST resolve handler (query parameters versionId / versionTime) over a real
 // DocumentHandler and requires the answer to agree with the processor-level historical view.
 func c06REST(r *hx.Run, pool *fx.Pool, client protocol.Client) {
@@ -362,6 +384,12 @@ func c06REST(r *hx.Run, pool *fx.Pool, client protocol.Client) {
 			for T := int64(-1); T <= 6; T++ {
 				ts := time.Unix(T, 0).UTC().Format(time.RFC3339)
 				check(fmt.Sprintf("rest|%d|T=%d", hi, T), "?versionTime="+ts, document.WithVersionTime(ts))
+				if T >= 0 {
+					// the same instant spelled with a UTC offset / fractional seconds (query-escaped): same view as the UTC spelling
+					for si, sp := range c06Spellings(T) {
+						check(fmt.Sprintf("rest|%d|T=%d|spelling%d", hi, T, si), "?versionTime="+url.QueryEscape(sp), document.WithVersionTime(ts))
+					}
+				}
 			}
 			check(fmt.Sprintf("rest|%d|T=garbage", hi), "?versionTime=yesterday", document.WithVersionTime("yesterday"))
 			caseID := fmt.Sprintf("rest|%d|both%s", hi, formTag)
